@@ -740,6 +740,7 @@ pub fn run(seed: u64, run: u64) -> Report {
         multibyte: wl.below(3) as u8,
         crlf: (0..8).map(|_| wl.chance(1, 4)).collect(),
         comments: true,
+        shape: *wl.pick(&[0, 0, 0, 1, 2]),
     };
     let mut files = hist::files_of(&gen::render(&ast, &layout));
     let mut probes: Vec<String> = Vec::new();
